@@ -269,7 +269,7 @@ def check_generic(case, out):
                          f"knot_remove({nodes}, {tolc}) succeeded on U={ref.U} P={ref.P}: int (C-D)^2 = {float(dev2):.3e} > {float(2*tol*L):.1e}")
         else:
             dev, where = oracle.max_deviation(ref, after)
-            wmin = min(abs(x) for x in ref.w)
+            wmin = min(abs(x) for x in ref.w) / max(abs(x) for x in ref.w)  # the library measures at unit-weight scale
             bound = (2 * float(tol) * float(L)) ** 0.5 * 100 / float(wmin)
             if float(dev) > max(bound, 1e-12):
                 out.fail("silently-lossy", klass,
